@@ -891,3 +891,54 @@ def r01_9_badi_year_lengths(ctx: Ctx) -> RuleResult:
         else:
             rr.fail(c.qual, f"Badi year {y}: Naw-Ruz {g0 + y - 1}-03-{nr[y]} to {g0 + y}-03-{nr[y + 1]} is {by_dates} days but the year has 361 + {a} = {361 + a} days by the Ayyam-i-Ha table", ctx.loc(fa))
     return rr
+
+
+@rule("C01")
+def r01_10_year_starts_vs_year_lengths(ctx: Ctx) -> RuleResult:
+    """start(y + 1) - start(y) == days_in_year(y): the two functions the day-number -> date and date -> day-number conversions rest
+    on must agree year by year, or a run of day numbers has no date / two dates.  Both are evaluated by the abstract interpreter on
+    exact years for every calculator instance whose year starts are computable that way (closed forms and folded tables: the
+    tabular Islamic variants, Julian, Gregorian, Coptic, Um Al Qura); quick tier: the first and last 3 years and every 997th year
+    in between, thorough tier: every year.  (Hebrew is covered by R02.7 + R01.5, Badi by R01.9; the Persian calculators' year-start
+    tables are built in __init__ from the same leap predicate that gives the year length.)"""
+    from ..absint import Iv, Obj
+    from ..calendars import calculator_instances
+    from ..oblig import interp
+
+    rr = RuleResult("R01.10", "year starts and year lengths agree (start(y+1) - start(y) == days_in_year(y)) on the years evaluated, per calculator instance", min_instances=10)
+    M = ctx.M
+    for ci in calculator_instances(ctx):
+        c = M.cls(ci.cls)
+        fs, fl = M.find_method(c, "_get_start_of_year_in_days"), M.find_method(c, "_get_days_in_year")
+
+        def ev(f, y: int) -> int | None:
+            I = interp(ctx)
+            I.max_depth = 8
+            rets, _ = I.analyse(f, self_obj=Obj(ci.cls, dict(ci.obj.fields)), params={f.value_params[0].arg: Iv(y, y)})
+            vals = {int(v.lo) for v, _ in rets if isinstance(v, Iv) and v.const}
+            return next(iter(vals)) if len(vals) == 1 and len(rets) >= 1 else None
+
+        if ev(fs, ci.min_year) is None or ev(fs, ci.max_year) is None or ev(fl, ci.min_year) is None:
+            rr.undecided.append(f"{ci.label}: year starts / lengths not evaluable on exact years (table built at run time)")
+            continue
+        lo, hi = ci.min_year, ci.max_year
+        years = range(lo, hi + 1) if ctx.tier != "quick" else sorted(set(range(lo, min(lo + 3, hi))) | set(range(max(hi - 3, lo), hi + 1)) | set(range(lo, hi, 997)))
+        rr.inst()
+        bad = None
+        n = 0
+        skipped = 0
+        for y in years:
+            a, b, d = ev(fs, y), ev(fs, y + 1), ev(fl, y)
+            rr.states += 3
+            n += 1
+            if a is None or b is None or d is None:
+                skipped += 1  # e.g. inside the Gregorian calculator's precomputed 1900-2100 table: not an exact value for the analysis
+                continue
+            if b - a != d:
+                bad = (y, f"start({y + 1}) - start({y}) = {b - a} but days_in_year({y}) = {d}")
+                break
+        if bad is None:
+            rr.ok({"calculator": ci.label, "years_evaluated": n - skipped, "years_not_evaluable": skipped})
+        else:
+            rr.fail(ci.label, f"year {bad[0]}: {bad[1]}", ctx.loc(fs))
+    return rr
